@@ -147,4 +147,94 @@ func TestC04(t *testing.T) {
 	c.Check(t, "ledger-machine", hx.N(1500, 12000), func(cs *hx.Case) {
 		runLedgerCase(cs, fs, 30)
 	})
+	if t.Failed() {
+		return
+	}
+	// capacity (round-7 angle): the ledger's block / header caches hold 100 entries (a compile-time constant), which a
+	// 30-step history never fills. These histories start with 95-135 stored blocks - one long chain, or two branches
+	// from genesis the second of which overtakes the first (a reorganisation deeper than half the cache while older
+	// entries are being evicted) - built by ordinary confirm operations (checked once at the end of the prefix), followed
+	// by the usual operations with the full oracle after every step
+	c.Check(t, "ledger-machine-long", hx.N(40, 250), func(cs *hx.Case) {
+		runLongLedgerCase(cs, fs)
+	})
+}
+
+func runLongLedgerCase(cs *hx.Case, fs *hx.FindingSet) {
+	rt := cs.RT()
+	lm, err := hx.NewLedgerMachine(fs)
+	if err != nil {
+		rt.Fatalf("setup: %v", err)
+	}
+	defer lm.Close()
+	step := 0
+	apply := func(op hx.LOp, check bool) {
+		if msg := ledgerExcluded(lm, fs, op); msg != "" {
+			cs.Exclude(msg)
+			return
+		}
+		cs.Op(op)
+		if err := lm.Apply(op); err != nil {
+			cs.Failf("step %d %+v: %v", step, op, err)
+		}
+		if check {
+			if err := lm.CheckInvariant(); err != nil {
+				cs.Failf("after step %d %+v: %v", step, op, err)
+			}
+		}
+		step++
+	}
+	txs := func() []string {
+		if rapid.IntRange(0, 3).Draw(rt, "withtx") == 0 {
+			return []string{rapid.SampledFrom([]string{"t0", "t1", "t2", "t3", "t4", "t5"}).Draw(rt, "tx")}
+		}
+		return []string{}
+	}
+	extend := func(parent int) int {
+		apply(hx.LOp{Op: "confirm", Label: fmt.Sprintf("b%d", len(lm.M.Blocks)), Parent: parent, Txs: txs(), Kind: "ok"}, false)
+		return len(lm.M.Blocks) - 1
+	}
+	if rapid.Bool().Draw(rt, "twobranches") {
+		a := rapid.IntRange(48, 66).Draw(rt, "branchlen")
+		tipA, tipB := 0, 0
+		for i := 0; i < a; i++ {
+			tipA = extend(tipA)
+		}
+		for i := 0; i < a+1; i++ {
+			tipB = extend(tipB)
+		}
+		cs.Label("long-prefix:two-branches-deep-reorg")
+	} else {
+		n := rapid.IntRange(95, 135).Draw(rt, "chainlen")
+		tip := 0
+		for i := 0; i < n; i++ {
+			tip = extend(tip)
+			if i%23 == 22 {
+				extend(lm.M.Blocks[tip].Parent) // a side stub now and then
+			}
+		}
+		cs.Label("long-prefix:one-chain")
+	}
+	if err := lm.CheckInvariant(); err != nil {
+		cs.Failf("after the long prefix (%d blocks): %v", len(lm.M.Blocks)-1, err)
+	}
+	n := rapid.IntRange(1, 12).Draw(rt, "steps")
+	for i := 0; i < n; i++ {
+		apply(genLedgerOp(rt, lm, step, true), true)
+		st := lm.M.StoredIdx()
+		a := st[rapid.IntRange(0, len(st)-1).Draw(rt, "pa")]
+		b := st[rapid.IntRange(0, len(st)-1).Draw(rt, "pb")]
+		if err := lm.CheckPaths(a, b); err != nil {
+			cs.Failf("after step %d: %v", step, err)
+		}
+	}
+	if len(lm.M.StoredIdx()) > 100 {
+		cs.Nontrivial()
+	}
+	if lm.Reorgs > 0 {
+		cs.Label("long:reorg")
+	}
+	if lm.Truncs > 0 {
+		cs.Label("long:truncate")
+	}
 }
